@@ -9,7 +9,7 @@ VERUS = os.environ.get('VERUS', 'verus')
 
 # messages that mean "a proof obligation was generated and the solver could not discharge it"
 FAIL_PATTERNS = [
-    ('postcondition', r'^postcondition not satisfied'),
+    ('postcondition', r'^postcondition not satisfied|unable to prove post-?condition of closure'),
     ('invariant', r'^invariant not satisfied'),
     ('loop-ensures', r'loop ensures|^loop invariant .* not'),
     ('assertion', r'^assertion failed|^assert(ion)? .*failed'),
@@ -142,7 +142,7 @@ def label(unit, f):
     elif org.get('kind') == 'spec':
         at = 'contract[%s]' % org.get('note', '')
     elif org.get('kind') == 'rewrite':
-        at = '%s:%s(rewritten %s)' % (org.get('file'), org.get('line'), org.get('rule'))
+        at = '%s:%s(rewritten by %s)' % (org.get('file'), org.get('line'), str(org.get('rule')).split(' ')[0])
     else:
         at = '%s:%s' % (org.get('file', org.get('kind')), org.get('line', ''))
     return '%s/%s/%s@%s `%s`' % (unit, item, f['kind'], at, f['where']['text'][:100])
